@@ -361,6 +361,57 @@ func runC03(c *eng.Ctx) {
 	r10 := c.Rule("C03.R10", "B+A+C", "enableKubeEventCb: under eventBufLock sets the flag, replays eventBuf in ascending order through putEvent before clearing it (tasks are queued in the order the events were received)", 5)
 	runC01R5(c, r10)
 
+	// producers never wait inside a queue primitive: the Add* methods are called by the single events-handler goroutine
+	// while it holds the queue-set lock, and by workers; a channel operation that can block there (a send nobody
+	// receives during a back-off, a receive) stops every queue
+	r12 := c.Rule("C03.R12", "H:idiom", "the queue's insertion methods contain no channel operation that can block (only the communication of a select with a default clause)", 4)
+	for _, name := range []string{"AddLast", "addLast", "AddFirst", "addFirst", "AddAfter", "addAfter", "AddBefore", "addBefore"} {
+		f := p.Func(pkgQueue + ".(*TaskQueue)." + name)
+		if f == nil || f.Decl.Body == nil {
+			continue
+		}
+		c.Touch(f)
+		var bad ast.Node
+		var stack []ast.Node
+		ast.Inspect(f.Decl.Body, func(n ast.Node) bool {
+			if n == nil {
+				stack = stack[:len(stack)-1]
+				return true
+			}
+			blocking := false
+			switch t := n.(type) {
+			case *ast.SendStmt:
+				blocking = true
+			case *ast.UnaryExpr:
+				blocking = t.Op == token.ARROW
+			}
+			if blocking {
+				// allowed: the communication of a select that has a default clause
+				nonBlocking := false
+				for i := len(stack) - 1; i >= 0; i-- {
+					if sel, isSel := stack[i].(*ast.SelectStmt); isSel {
+						for _, cl := range sel.Body.List {
+							if cc, isCC := cl.(*ast.CommClause); isCC && cc.Comm == nil {
+								nonBlocking = true
+							}
+						}
+						break
+					}
+				}
+				if !nonBlocking {
+					bad = n
+				}
+			}
+			stack = append(stack, n)
+			return true
+		})
+		if bad == nil {
+			r12.Ok(f.Key+" never blocks on a channel", f.Decl.Pos(), "no blocking channel operation")
+		} else {
+			r12.Bad(f.Key+" never blocks on a channel", bad.Pos(), "a queue insertion can block on a channel operation: the events handler calls it under the queue-set lock, so every queue stops receiving tasks (and every worker waiting for that lock stalls) until somebody communicates")
+		}
+	}
+
 	// ---- R11: a task that is run outside the queues (an admission or conversion request is answered by calling the
 	// task handler directly from the HTTP goroutine) is combined with no queue: it has no queue name, the lookup of
 	// "" finds no queue, and the combine step is given exactly the queue looked up by the task's own queue name.
